@@ -6,7 +6,8 @@ open PytypeModel.Pytd
 
 `unit <sexpr>` →
   `modelled=0|1 <TAB> frag=0|1 <TAB> verify=0|1 <TAB> tree=<module sexpr> <TAB> conv=<ok unit sexpr | err kind>
-   <TAB> norm=<unit sexpr> <TAB> fix=0|1 <TAB> vnorm=0|1 <TAB> canon=<ok module sexpr | err kind> <TAB> guards=<failed guard names>`
+   <TAB> norm=<unit sexpr> <TAB> fix=0|1 <TAB> vnorm=0|1 <TAB> canon=<ok module sexpr | err kind>
+   <TAB> cstable=0|1 <TAB> guards=<failed guard names>`
 `tree <module sexpr>` → `conv=<ok unit sexpr | err kind>`   (the parser model on an arbitrary tree)
 `compat` → the pep484 compat table of the model
 
@@ -355,6 +356,14 @@ def convS (r : PM TUnit) : String :=
   | .ok u => "ok " ++ unitS u
   | .error e => errS e
 
+/-- the side condition `CanonStable` of Props/C05.lean, evaluated (equality of the printed modules is
+decided on their dumps) -/
+def canonStable (u : TUnit) : Bool :=
+  let c := canonUnit (normUnit u)
+  let c2 := canonUnit (normUnit c)
+  inFragment c && verifyUnit c && verifyUnit c2 && (modelledGuards c2).all (·.2) &&
+    decide (moduleS (printUnit c2) = moduleS (printUnit c))
+
 def answerUnit (u : TUnit) : String :=
   let tree := printUnit u
   let nu := normUnit u
@@ -372,6 +381,7 @@ def answerUnit (u : TUnit) : String :=
     "fix=" ++ b01 fix,
     "vnorm=" ++ b01 (verifyUnit nu),
     "canon=" ++ canon,
+    "cstable=" ++ b01 (canonStable u),
     "guards=" ++ ",".intercalate (failedGuards u)]
 
 def step (_ : Unit) (line : String) : Unit × Option String :=
